@@ -363,6 +363,26 @@ func runC02(c *core.Case) {
 			return
 		}
 	}
+	if r.P(0.02) && id.H >= 9 {
+		// a run of 300 consecutive rows of this column: every row's south edge is, bit for bit, the next row's north edge
+		y0 := clampI(id.Y-150, 0, n-301)
+		prevS := math.NaN()
+		for y := y0; y <= y0+300; y++ {
+			row := ref.ID{H: id.H, X: id.X, Y: y, V: id.V, F: id.F}
+			vr, e := shape.GetPointOnExtendedSpatialId(row.Ext(), enum.Vertex)
+			c.Call()
+			if e != nil || len(vr) != 8 {
+				c.Fail("vertex-error", nil, "row sweep %s: %v", row.Ext(), e)
+				return
+			}
+			if y > y0 && vr[0].Lat() != prevS {
+				c.Fail("shared-face-y", nil, "row sweep: south edge of row %d is %v but north edge of %s is %v", y-1, prevS, row.Ext(), vr[0].Lat())
+				return
+			}
+			prevS = vr[2].Lat()
+		}
+		c.Tag("row-sweep-300")
+	}
 	nbf := ref.ID{H: id.H, X: id.X, Y: id.Y, V: id.V, F: id.F + 1}
 	vf, e := shape.GetPointOnExtendedSpatialId(nbf.Ext(), enum.Vertex)
 	c.Call()
